@@ -175,7 +175,7 @@ def run(ctx):
     # ---------------------------------------------------------------- G6
     ts = common.typestate(ctx, esc)
     S = ts.S
-    est = set(n for n, v in S.members.items() if v >= S.members['ESTABLISHED'] and n != 'DELETED')
+    est = set(S.members) - common.pre_auth_states(ctx, S) - {'DELETED'}
 
     def assigned_states(e):
         if isinstance(e, ast.IfExp):
